@@ -206,3 +206,66 @@ Section Main.
     exists s. split; assumption.
   Qed.
 End Main.
+
+(* ------------------------------------------------------------------ *)
+(* The same theorems for the fresh subgraph [nodes_init zero labels], as called by
+   [sup_fit] / [semi_fit].                                             *)
+
+Section AtInit.
+  Variables zero top : Z.
+  Variable n : nat.
+  Variable w : nat -> nat -> Z.
+  Variable labels : list nat.
+
+  Hypothesis n_pos : 1 <= n.
+  Hypothesis labels_len : length labels = n.
+  Hypothesis w_top : forall p q, p < n -> q < n -> p <> q -> (w p q < top)%Z.
+
+  Lemma init_lcost : length (n_cost (nodes_init zero labels)) = n.
+  Proof. cbn. rewrite repeat_length. exact labels_len. Qed.
+  Lemma init_lpred : length (n_pred (nodes_init zero labels)) = n.
+  Proof. cbn. rewrite repeat_length. exact labels_len. Qed.
+  Lemma init_lstat : length (n_status (nodes_init zero labels)) = n.
+  Proof. cbn. rewrite repeat_length. exact labels_len. Qed.
+  Lemma init_status : forall q, q < n -> nth q (n_status (nodes_init zero labels)) false = false.
+  Proof. intros q _. cbn. apply nth_repeat. Qed.
+
+  Lemma init_find_prototypes_lengths :
+    let nd := find_prototypes Z.ltb top n w (nodes_init zero labels) in
+    length (n_cost nd) = n /\ length (n_pred nd) = n /\ length (n_status nd) = n /\
+    n_label nd = labels /\ n_plabel nd = repeat 0 n /\
+    n_relevant nd = repeat false n /\ n_order nd = [].
+  Proof.
+    destruct (find_prototypes_lengths top n w (nodes_init zero labels) n_pos w_top
+                init_lcost init_lpred init_lstat init_status) as (A & B & C & D & E & F & G).
+    cbn [nodes_init n_label n_plabel n_relevant n_order] in D, E, F, G.
+    rewrite labels_len in E, F. cbv zeta. repeat split; assumption.
+  Qed.
+  Definition init_prim_spanning_tree :=
+    prim_spanning_tree top n w (nodes_init zero labels) n_pos w_top
+      init_lcost init_lpred init_lstat init_status.
+  Definition init_prim_tree_connected :=
+    prim_tree_connected top n w (nodes_init zero labels) n_pos w_top
+      init_lcost init_lpred init_lstat init_status.
+  Definition init_prim_minimax_tree :=
+    prim_minimax_tree top n w (nodes_init zero labels) n_pos w_top
+      init_lcost init_lpred init_lstat init_status.
+  Definition init_prim_cycle_optimal :=
+    prim_cycle_optimal top n w (nodes_init zero labels) n_pos w_top
+      init_lcost init_lpred init_lstat init_status.
+  Definition init_prim_tree_characterised :=
+    prim_tree_characterised top n w (nodes_init zero labels) n_pos w_top
+      init_lcost init_lpred init_lstat init_status.
+  Definition init_prototypes_exact :=
+    prototypes_exact top n w (nodes_init zero labels) n_pos w_top
+      init_lcost init_lpred init_lstat init_status.
+  Definition init_prototypes_characterised :=
+    prototypes_characterised top n w (nodes_init zero labels) n_pos w_top
+      init_lcost init_lpred init_lstat init_status.
+  Definition init_every_class_has_prototype :=
+    every_class_has_prototype top n w (nodes_init zero labels) n_pos w_top
+      init_lcost init_lpred init_lstat init_status.
+  Definition init_prototypes_nonempty :=
+    prototypes_nonempty top n w (nodes_init zero labels) n_pos w_top
+      init_lcost init_lpred init_lstat init_status.
+End AtInit.
